@@ -483,7 +483,7 @@ impl Mp4Track {
 
             let chunk_id = sample_id
                 .checked_sub(first_sample)
-                .map(|n| n / samples_per_chunk)
+                .and_then(|n| n.checked_div(samples_per_chunk))
                 .and_then(|n| n.checked_add(first_chunk))
                 .ok_or(Error::InvalidData(
                     "attempt to calculate stsc chunk_id with overflow",
